@@ -429,6 +429,29 @@ def check(ctx):
                f"column are dropped by the Python kernels and kept by the Numba kernels, so results depend on USE_NUMBA",
                clause="the same values, the same missing-value positions ... whether Numba is used or not")
     ctx.count("element kinds admitted by use_numba", len(admitted_by), 3)
+    # UNIFY: a generic_numba kernel appends `function(xg) if len(xg) >= nrequired else default` -- Numba types both arms and
+    # must unify them.  A numeric default (0, nan, True) unifies with numeric results; for a timedelta column np.sum / np.mean /
+    # np.median return a timedelta, which no number unifies with: compilation fails (TypingError) where the Python kernel
+    # returns the timedelta.  (std/var of timedeltas and every such reduction of datetimes raise on both sides.)
+    ctx.rule("UNIFY", "for every element kind use_numba() admits, the result type of a generic_numba statistic unifies with the kernel's default")
+    SAME_KIND_RESULT = {"numpy.sum": {"timedelta"}, "numpy.nansum": {"timedelta"}, "numpy.mean": {"timedelta"}, "numpy.nanmean": {"timedelta"},
+                        "numpy.median": {"timedelta"}, "numpy.nanmedian": {"timedelta"}}
+    n_un = 0
+    for h in A.HELPERS:
+        g = A.group_form(repo, repo.fn(f"{A.AGG}.{h}"))
+        if not any(nb == "generic_numba" for _, nb, _ in g["pairs"]):
+            continue
+        kd = g.get("kernel_default")
+        for stat, _kw in g["stat"]:
+            n_un += 1
+            clash = sorted(k for k in admitted_by if k in SAME_KIND_RESULT.get(stat, ()) and kd not in (None, "None", "NA"))
+            ctx.ob("UNIFY", g["closure"], f"{h}: {stat} with default {kd} over {sorted(admitted_by)}", g["call"], not clash,
+                   "result and default unify for every admitted element kind" if not clash else
+                   f"use_numba() admits {clash[0]} columns, for which {stat} returns a {clash[0]}; the compiled kernel's other arm is the "
+                   f"default {kd}: Numba cannot unify the two (TypingError at first use), while the Python kernel returns the {clash[0]} -- "
+                   f"the aggregation raises with USE_NUMBA on and succeeds with it off",
+                   clause="the same values ... with USE_NUMBA switched on as with it switched off")
+    ctx.count("generic_numba statistics judged for arm unification", n_un, 8)
     isn = repo.fn(f"{A.AGG}.is_na_numba")
     ok = any(norm(c.func) == "is_na_item_numba" for _, c in calls_in(isn))
     ctx.ob("SIB-9", isn, "is_na_numba applies is_na_item_numba element-wise", isn.node, ok, "wired" if ok else "is_na_numba does not use the overload", nontrivial=False)
